@@ -28,8 +28,9 @@ type VSVal struct {
 type C15Case struct {
 	Mode   string  `json:"mode"`
 	Vals   []VSVal `json:"vals,omitempty"`
-	Pos    []int   `json:"pos,omitempty"`   // lifted: positional types (may repeat)
-	Calls  int     `json:"calls,omitempty"` // built: number of sequential calls
+	Pos    []int   `json:"pos,omitempty"`    // lifted: positional types (may repeat)
+	PosDyn []int   `json:"posDyn,omitempty"` // liftedi: concrete type of the value given for each position
+	Calls  int     `json:"calls,omitempty"`  // built: number of sequential calls
 	FailAt int     `json:"failAt,omitempty"`
 	// objects: a history over several Funcs, some of them of one and the same
 	// Go function type, whose value sets are loaded and re-read in turn
@@ -72,6 +73,8 @@ func evalC15(c *engine.Case) engine.Verdict {
 			evalC15Set(&v, &x)
 		case "lifted":
 			evalC15Lifted(&v, &x)
+		case "liftedi":
+			evalC15LiftedIface(&v, &x)
 		case "built":
 			evalC15Built(&v, c, &x)
 		case "objects":
@@ -82,6 +85,15 @@ func evalC15(c *engine.Case) engine.Verdict {
 		v.Failf("panic: %s", o.Panic)
 	}
 	return v
+}
+
+func inInts(xs []int, x int) bool {
+	for _, y := range xs {
+		if y == x {
+			return true
+		}
+	}
+	return false
 }
 
 func evalC15Set(v *engine.Verdict, x *C15Case) {
@@ -579,6 +591,68 @@ func evalC15Objects(v *engine.Verdict, x *C15Case) {
 	v.NonTrivial = sameType && crossLoads >= 1
 }
 
+// evalC15LiftedIface: a positional function with interface-typed positions.
+// The caller loads its input set with hand-built reflect.Values (concrete
+// values, as reflect.ValueOf(impl) yields them -- two positions may well be
+// given values of ONE concrete type), renders the set with Args() and calls the
+// function: every position must receive the value that was loaded into it.
+func evalC15LiftedIface(v *engine.Verdict, x *C15Case) {
+	var ts []reflect.Type
+	for _, t := range x.Pos {
+		ts = append(ts, engine.Types[t])
+	}
+	var seenIn []int
+	fn := reflect.MakeFunc(reflect.FuncOf(ts, ts, false), func(args []reflect.Value) []reflect.Value {
+		seenIn = nil
+		for _, a := range args {
+			seenIn = append(seenIn, engine.Observe(a).Tok)
+		}
+		return args
+	})
+	f, err := argmapper.NewFunc(fn.Interface())
+	if err != nil {
+		v.Failf("NewFunc: %v", err)
+		return
+	}
+	vals := make([]reflect.Value, len(ts))
+	sameDyn := false
+	seen := map[int]bool{}
+	for i := range x.Pos {
+		vals[i] = engine.MakeValue(x.PosDyn[i], 10+i)
+		if seen[x.PosDyn[i]] {
+			sameDyn = true
+		}
+		seen[x.PosDyn[i]] = true
+	}
+	in := f.Input()
+	if err := in.FromSignature(vals); err != nil {
+		v.Failf("FromSignature: %v", err)
+		return
+	}
+	for i, g := range in.Values() {
+		if ob := engine.Observe(g.Value); ob.Tok != 10+i {
+			v.Failf("lifted FromSignature: value %d holds #%d, want #%d", i, ob.Tok, 10+i)
+			return
+		}
+	}
+	res := f.Call(append(in.Args(), engine.Quiet())...)
+	if res.Err() != nil {
+		v.Failf("the function called with its own input set rendered by Args(): %.200s", res.Err())
+		return
+	}
+	for i := range x.Pos {
+		if i >= len(seenIn) || seenIn[i] != 10+i {
+			v.Failf("called with Args() of its loaded input set: position %d (%s) received #%v, it was loaded with #%d", i, engine.TypeName(x.Pos[i]), seenIn, 10+i)
+			return
+		}
+	}
+	v.Class("lifted-interface-positions")
+	if sameDyn {
+		v.Class("two-positions-given-one-concrete-type")
+	}
+	v.NonTrivial = sameDyn
+}
+
 // normalize renders an event log with tokens replaced by their provenance, so
 // that twin worlds are comparable.
 func normalize(w *engine.World, evs []engine.Event) string {
@@ -769,6 +843,26 @@ func genC15(g engine.G) *engine.Case {
 		n := g.Int(1, 4)
 		for i := 0; i < n; i++ {
 			x.Pos = append(x.Pos, g.Int(0, 3))
+		}
+		if g.Pct(30) {
+			// distinct position types, one to three of them interfaces; the
+			// concrete positions implement none of them
+			x.Mode, x.Pos = "liftedi", nil
+			cand := rapidPerm(g, []int{engine.TypeI0, engine.TypeI1, engine.TypeI0b, 3, 4})
+			for _, t := range cand[:g.Int(2, 4)] {
+				if t == engine.TypeI0b && inInts(x.Pos, engine.TypeI0) || t == engine.TypeI0 && inInts(x.Pos, engine.TypeI0b) {
+					continue // twins implement each other
+				}
+				x.Pos = append(x.Pos, t)
+				d := t
+				if engine.IsIface(t) {
+					d = engine.Pick(g, engine.Implementers(t))
+					if g.Pct(60) && engine.Implements(1, t) {
+						d = 1 // T1 implements I0, I0b and I1: the shared concrete type
+					}
+				}
+				x.PosDyn = append(x.PosDyn, d)
+			}
 		}
 	default:
 		x.Mode = "built"
